@@ -1,6 +1,6 @@
 import math
 
-from .column import Column, ensure_column, parse
+from .column import Column, ensure_column, parse, parse_value
 from .expressions.aggregate.collectors import (
     ApproxCountDistinct, CollectList, CollectSet, CountDistinct, First, Last, SumDistinct
 )
@@ -284,7 +284,7 @@ def when(condition, value):
 
     :rtype: Column
     """
-    return col(CaseWhen([parse(condition)], [parse(value)]))
+    return col(CaseWhen([parse(condition)], [parse_value(value)]))
 
 
 def rand(seed=None):
